@@ -544,6 +544,75 @@ func c02(c *Ctx) {
 	}
 	// (c) bounds on frame-derived data
 	taint := frameTaint(p, root, fns)
+	// scalar header fields handed to callees (hdr.TypeCode.String()): an integer parameter whose argument is read from a
+	// frame-derived header, or computed from one, is frame-derived
+	inFns := map[*ssa.Function]bool{}
+	for _, fn := range fns {
+		inFns[fn] = true
+	}
+	scalarFields := map[string]bool{}
+	sfKey := func(fa *ssa.FieldAddr) string {
+		n := NamedOf(fa.X.Type())
+		if n == nil {
+			return ""
+		}
+		return n.String() + "#" + fmt.Sprint(fa.Field)
+	}
+	for _, fn := range fns {
+		for _, b := range fn.Blocks {
+			for _, in := range b.Instrs {
+				if st, ok := in.(*ssa.Store); ok {
+					if fa, ok := st.Addr.(*ssa.FieldAddr); ok {
+						if bt, ok := st.Val.Type().Underlying().(*types.Basic); ok && bt.Info()&types.IsInteger != 0 && idxFromFrame(st.Val, taint, 8) {
+							if k := sfKey(fa); k != "" {
+								scalarFields[k] = true
+							}
+						}
+					}
+				}
+			}
+		}
+	}
+	scalarFromFrame := func(a ssa.Value) bool {
+		if idxFromFrame(a, taint, 8) {
+			return true
+		}
+		if ld, ok := a.(*ssa.UnOp); ok && ld.Op == token.MUL {
+			if fa, ok := ld.X.(*ssa.FieldAddr); ok && scalarFields[sfKey(fa)] {
+				return true
+			}
+		}
+		if ld, ok := a.(*ssa.UnOp); ok && ld.Op == token.MUL {
+			if fa, ok := ld.X.(*ssa.FieldAddr); ok && (taint[fa.X] || taint[fa]) {
+				return true
+			}
+		}
+		if fl, ok := a.(*ssa.Field); ok && taint[fl.X] {
+			return true
+		}
+		return false
+	}
+	for round := 0; round < 3; round++ {
+		for _, fn := range fns {
+			for _, call := range Calls(fn) {
+				callee := call.Common().StaticCallee()
+				if callee == nil || !inFns[callee] || callee.Blocks == nil {
+					continue
+				}
+				for i, a := range call.Common().Args {
+					if i >= len(callee.Params) || taint[callee.Params[i]] {
+						continue
+					}
+					if bt, ok := a.Type().Underlying().(*types.Basic); !ok || bt.Info()&types.IsInteger == 0 {
+						continue
+					}
+					if scalarFromFrame(a) {
+						taint[callee.Params[i]] = true
+					}
+				}
+			}
+		}
+	}
 	nOb, nProved := 0, 0
 	selfBuilt := map[string]int{}
 	var notes []string
@@ -576,6 +645,13 @@ func c02(c *Ctx) {
 					continue
 				}
 				isFrame := base != nil && taint[base]
+				// a table of our own indexed by a value taken from the frame (a type/code field) is as much at the frame's mercy
+				switch x := in.(type) {
+				case *ssa.IndexAddr:
+					isFrame = isFrame || idxFromFrame(x.Index, taint, 8)
+				case *ssa.Index:
+					isFrame = isFrame || idxFromFrame(x.Index, taint, 8)
+				}
 				if mk, isMk := in.(*ssa.MakeSlice); isMk {
 					isFrame = lenFromFrame(mk.Len, taint, 6)
 				}
@@ -801,4 +877,44 @@ func c02NoRelock(c *Ctx, fns []*ssa.Function) {
 		}
 	}
 	c.Floor(rule, 1, "handleTCP holds the state's mutex")
+}
+
+// idxFromFrame: an index computed (conversions, arithmetic, masks) from a value the frame taint reaches.
+func idxFromFrame(v ssa.Value, taint map[ssa.Value]bool, depth int) bool {
+	if depth == 0 || v == nil {
+		return false
+	}
+	if _, isC := v.(*ssa.Const); isC {
+		return false
+	}
+	if taint[v] || lenFromFrame(v, taint, 4) {
+		return true
+	}
+	switch x := v.(type) {
+	case *ssa.Convert:
+		return idxFromFrame(x.X, taint, depth-1)
+	case *ssa.ChangeType:
+		return idxFromFrame(x.X, taint, depth-1)
+	case *ssa.BinOp:
+		return idxFromFrame(x.X, taint, depth-1) || idxFromFrame(x.Y, taint, depth-1)
+	case *ssa.Phi:
+		for _, e := range x.Edges {
+			if idxFromFrame(e, taint, depth-1) {
+				return true
+			}
+		}
+	case *ssa.Call:
+		// an integer function of frame-derived integers (CreateICMPv4TypeCode(data[0], data[1]), a.Code())
+		if bt, ok := x.Type().Underlying().(*types.Basic); ok && bt.Info()&types.IsInteger != 0 {
+			if b, isB := x.Call.Value.(*ssa.Builtin); isB && (b.Name() == "len" || b.Name() == "cap") {
+				return false
+			}
+			for _, a := range x.Call.Args {
+				if idxFromFrame(a, taint, depth-1) {
+					return true
+				}
+			}
+		}
+	}
+	return false
 }
